@@ -25,7 +25,7 @@ ID = 'C16'
 LEVEL = 'exploration'
 TECHNIQUE = 'property-based testing; metamorphic oracle (values keyed by refs) + token-level text diff + template model'
 RULE = ('case = document spec (table/column names from pools with cross-table name sharing, 2-3 tables with Ref, '
-        'RefList and self-Ref columns, typed rows, 10-60 formula columns drawn from a grammar of ~65 reference forms '
+        'RefList and self-Ref columns, typed rows, 10-60 formula columns drawn from a grammar of ~85 reference forms '
         'hosted in all tables and in a summary table, a trigger-formula data column, a display helper column) + 1-2 '
         'renames (column or table; paths RenameColumn, RenameTable, UpdateRecord colId / tied label / untie toggle / '
         'bulk colId of two columns / tableId / raw view section title; targets plain, needing sanitising, keywords, '
@@ -145,6 +145,15 @@ FORMS = [
   ('pos-repeat', 'C', u'$«C.num» + $«C.num» + $«C.num» + rec.«C.num»'),
   ('pos-blank-lines', 'C', u'\n\n  v1 = $«C.num»\n  \n  return v1 + $«C.num»\n \n'),
   ('pos-lookup-multiline', 'C', u'«@A».lookupRecords(\n  «A.txt»=$«C.key»,\n  order_by=(\n    "«A.cat»",\n    "-«A.num»"))'),
+  ('pos-astral', 'C', u'"\U0001F600\U0001D11E" + $«C.txt» + "é" + $«C.key»'),
+  ('pos-tab', 'C', u'if $«C.num»:\n\treturn $«C.txt»\nreturn $«C.key»'),
+  ('pos-continuation', 'C', u'$«C.num» + \\\n  $«C.num» + \\\n  rec.«C.num»'),
+  ('pos-crlf', 'C', u'if $«C.num» > 1:\r\n  return $«C.txt»\r\nreturn $«C.key»'),
+  ('lookup-nested', 'C', u'«@A».lookupOne(«A.num»=«@A».lookupOne(«A.txt»=$«C.key»).«A.num»).«A.cat»'),
+  ('nested-def', 'C', u'def f1(z):\n  return z + $«C.num»\nreturn f1(1) + (lambda: rec.«C.num»)()'),
+  ('cond-expr', 'C', u'$«C.txt» if $«C.num» else $«C.key»'),
+  ('la-syntax-error', 'C', u'$‹C.num› +'),
+  ('la-kwarg-string-value', 'C', u'len(«@A».lookupRecords(«A.cat»="‹A.num›")) + len(«@A».lookupRecords(«A.txt»="-‹A.cat›"))'),
   # other hosts
   ('lookupR-reverse', 'A', u'len(«@C».lookupRecords(«C.aref»=$id))'),
   ('lookup-contains', 'A', u'[r.«C.num» for r in «@C».lookupRecords(«C.list»=CONTAINS($id))]'),
@@ -261,32 +270,89 @@ def _pick_names(case):
 
 
 def build(case, out):
-  """Builds the document. Returns (doc, st) where st holds names, refs, formulas: {colRef: (label, parts)}."""
+  """Builds the document. Returns (doc, st) where st holds names, refs, formulas: {colRef: (label, parts)}.
+  Formula columns are created inside the AddTable actions (one usercode rebuild per table, not per column);
+  rows are added last, so every formula is first evaluated against the complete schema."""
   names = _pick_names(case)
   nt = 2 if int(case.get('nt') or 3) == 2 else 3
   present = set(names)
   if nt == 2:
     present -= set(['B', 'B.txt', 'B.ref', 'B.amt', 'C.ref', 'C.fany'])
+  present.add('S')
   d = Doc()
   n = names
+  names['S'] = '%s_summary_%s' % (n['C'], n['C.key'])     # verified below
+
+  # plan of formula columns: (host, colId, type, label, parts)
+  plan = []
+  for ent, typ, _isf, tmpl, label in NAMED:
+    if ent in present:
+      plan.append(('C', n[ent], typ, label, parse_template(tmpl)))
+  plan.append(('S', n['S.tot'], 'Any', 'group-sum', parse_template(u'SUM($group.«C.num»)')))
+  seen = set()
+  k = 0
+  for i in (case.get('forms') or []):
+    i = abs(int(i)) % len(FORMS)
+    if i in seen:
+      continue
+    seen.add(i)
+    label, host, tmpl = FORMS[i]
+    parts = parse_template(tmpl)
+    if not (entities_of(parts) <= present) or host not in present:
+      continue
+    plan.append((host, 'f%d' % k, 'Any', label, parts)); k += 1
 
   def col(ent, typ, **kw):
     return dict({'id': n[ent], 'type': typ, 'isFormula': False}, **kw)
 
+  def fcols(host, late):
+    out_ = []
+    for h, cid, typ, label, parts in plan:
+      if h == host and (('S' in entities_of(parts)) == late):
+        out_.append({'id': cid, 'type': instantiate(parse_template(typ), names, names), 'isFormula': True,
+                     'formula': instantiate(parts, names, names)})
+    return out_
+
   uas = [['AddTable', n['A'], [col('A.txt', 'Text'), col('A.num', 'Int'), col('A.cat', 'Text'),
-                               col('A.self', 'Ref:' + n['A'])]]]
+                               col('A.self', 'Ref:' + n['A'])] + fcols('A', False)]]
   if nt == 3:
-    uas.append(['AddTable', n['B'], [col('B.txt', 'Text'), col('B.ref', 'Ref:' + n['A']), col('B.amt', 'Numeric')]])
+    uas.append(['AddTable', n['B'], [col('B.txt', 'Text'), col('B.ref', 'Ref:' + n['A']), col('B.amt', 'Numeric')]
+                + fcols('B', False)])
   ccols = [col('C.txt', 'Text')]
   if nt == 3:
     ccols.append(col('C.ref', 'Ref:' + n['B']))
   ccols += [col('C.list', 'RefList:' + n['A']), col('C.num', 'Int'), col('C.key', 'Text'),
             col('C.aref', 'Ref:' + n['A']),
             col('C.trig', 'Int', formula='$%s + 1' % n['C.num'])]
-  uas.append(['AddTable', n['C'], ccols])
+  uas.append(['AddTable', n['C'], ccols + fcols('C', False)])
   r = d.apply(uas)
   if not r.ok:
     out.fail('C16:setup', 'cannot create tables: %r' % (r.error,), uas)
+    return None, None
+
+  # table refs
+  tref = {}
+  for t in d.tables_meta():
+    for ent in 'ABC':
+      if ent in present and t['tableId'] == n[ent]:
+        tref[ent] = t['id']
+  # summary table of C by key, its formulas, and the formulas that name it
+  keyref = [c['id'] for c in d.columns(tref['C']) if c['colId'] == n['C.key']]
+  r = d.apply([['CreateViewSection', tref['C'], 0, 'record', keyref, None]])
+  if not r.ok:
+    out.fail('C16:setup', 'cannot create summary table: %r' % (r.error,))
+    return None, None
+  for t in d.tables_meta():
+    if t['summarySourceTable'] == tref['C']:
+      tref['S'] = t['id']
+      if names['S'] != t['tableId']:
+        out.fail('C16:setup', 'summary table is called %r, expected %r' % (t['tableId'], names['S']))
+        return None, None
+  uas = [['AddColumn', names[h], c['id'], dict((k_, v) for k_, v in c.items() if k_ != 'id')]
+         for h in ('S', 'C') for c in (fcols(h, False) if h == 'S' else []) + fcols(h, True)]
+  r = d.apply(uas)
+  if not r.ok:
+    out.fail('C16:setup', 'cannot add summary formulas: %r' % (r.error,), uas)
     return None, None
 
   rows = case.get('rows') or {}
@@ -315,54 +381,9 @@ def build(case, out):
   if not r.ok:
     out.fail('C16:setup', 'cannot add rows: %r' % (r.error,), uas)
     return None, None
-
-  # table refs
-  tref = {}
-  for t in d.tables_meta():
-    for ent in 'ABC':
-      if ent in present and t['tableId'] == n[ent]:
-        tref[ent] = t['id']
-  # summary table of C by key
-  keyref = [c['id'] for c in d.columns(tref['C']) if c['colId'] == n['C.key']]
-  r = d.apply([['CreateViewSection', tref['C'], 0, 'record', keyref, None]])
-  if not r.ok:
-    out.fail('C16:setup', 'cannot create summary table: %r' % (r.error,))
-    return None, None
-  for t in d.tables_meta():
-    if t['summarySourceTable'] == tref['C']:
-      tref['S'] = t['id']; names['S'] = t['tableId']
-  present.add('S')
-
-  # formula columns
-  plan = []     # (host, colId, type, label, parts)
-  for ent, typ, _isf, tmpl, label in NAMED:
-    if ent in present:
-      plan.append(('C', n[ent], typ, label, parse_template(tmpl)))
-  plan.append(('S', n['S.tot'], 'Any', 'group-sum', parse_template(u'SUM($group.«C.num»)')))
-  seen = set()
-  k = 0
-  for i in (case.get('forms') or []):
-    i = abs(int(i)) % len(FORMS)
-    if i in seen:
-      continue
-    seen.add(i)
-    label, host, tmpl = FORMS[i]
-    parts = parse_template(tmpl)
-    if not (entities_of(parts) <= present) or host not in present:
-      continue
-    plan.append((host, 'f%d' % k, 'Any', label, parts)); k += 1
-  uas = []
-  for host, cid, typ, label, parts in plan:
-    typ = instantiate(parse_template(typ), names, names)
-    uas.append(['AddColumn', names[host], cid, {'type': typ, 'isFormula': True,
-                                                'formula': instantiate(parts, names, names)}])
-  r = d.apply(uas)
-  if not r.ok:
-    out.fail('C16:setup', 'cannot add formula columns: %r' % (r.error,), uas)
-    return None, None
   if case.get('disp') and 'C.ref' in present:
-    cref = [c['id'] for c in d.columns(tref['C']) if c['colId'] == n['C.ref']][0]
-    d.apply([['SetDisplayFormula', n['C'], None, cref, '$%s.%s' % (n['C.ref'], n['B.txt'])]])
+    cref_ = [c['id'] for c in d.columns(tref['C']) if c['colId'] == n['C.ref']][0]
+    d.apply([['SetDisplayFormula', n['C'], None, cref_, '$%s.%s' % (n['C.ref'], n['B.txt'])]])
 
   # refs of entities and of generated formulas
   cref = {}
@@ -522,7 +543,7 @@ def _case_variant(s, i):
 def target_name(stt, obs, ent, tk, ti, is_table):
   """(requested name, kind label)."""
   tk, ti = abs(int(tk)) % 7, abs(int(ti))
-  cur = stt['names'][ent]
+  cur = current_names(stt, obs)[ent]
   if is_table:
     others = [t['tableId'] for r, t in sorted(obs['tables'].items()) if t['tableId'] != cur]
   else:
@@ -549,16 +570,18 @@ def target_name(stt, obs, ent, tk, ti, is_table):
 def resolve_rename(d, stt, obs, spec, out):
   """-> (user actions, prelude actions, label list) for one rename spec."""
   ents = sorted(e for e in stt['present'] if '.' in e)
-  tabs = ['A', 'B', 'C', 'A', 'C']
-  tabs = [t for t in tabs if t in stt['present']]
-  pool = ents + tabs
+  # tables and the columns most formulas mention are drawn more often
+  hot = ['A', 'B', 'C', 'A', 'C', 'A', 'A.num', 'A.txt', 'A.cat', 'C.num', 'C.key', 'C.txt', 'A.num', 'C.num',
+         'A.txt', 'C.key', 'C.ref', 'B.ref', 'B.txt', 'C.list', 'C.aref', 'A.self', 'C.fany', 'C.fref']
+  pool = ents + [t for t in hot if t in stt['present']]
+  names_now = current_names(stt, obs)
   ent = pool[abs(int(spec.get('ent') or 0)) % len(pool)]
   is_table = '.' not in ent
   path = (TAB_PATHS if is_table else COL_PATHS)[abs(int(spec.get('path') or 0)) % 10]
   name, kind = target_name(stt, obs, ent, spec.get('tk') or 0, spec.get('ti') or 0, is_table)
   labels = ['path:' + path, 'target:' + kind]
   pre = []
-  cur = stt['names'][ent]
+  cur = names_now[ent]
   if is_table:
     tr = stt['tref'][ent]
     if path == 'RenameTable':
@@ -570,7 +593,7 @@ def resolve_rename(d, stt, obs, spec, out):
     labels.append('renamed:table')
   else:
     cr = stt['cref'][ent]
-    tname = stt['names'][ent.split('.')[0]]
+    tname = names_now[ent.split('.')[0]]
     if path == 'RenameColumn':
       uas = [['RenameColumn', tname, cur, name]]
     elif path == 'meta-colId':
@@ -632,6 +655,36 @@ def _renamed_ents(stt, uas, obs):
   return ents
 
 
+_SORT_CTX_RE = re.compile(r'(order_by|group_by|sort_by)\s*=\s*[\(\s"\'\-,\w]*$')
+
+
+def slot_report(parts, old_names, new_names, frozen, text):
+  """Walks `text` along the template. -> (kind, context): kind 'ok' | 'not-rewritten' (a live slot still shows
+  the old id) | 'lookalike-rewritten' (a frozen slot shows the new id) | 'other'; context = 'sort_by-string' etc.
+  when the first offending slot sits inside an order_by/group_by/sort_by string literal."""
+  pos = 0
+  consumed = ''
+  for i, p in enumerate(parts):
+    if not isinstance(p, tuple):
+      if not text.startswith(p, pos):
+        return 'other', None
+      pos += len(p); consumed += p
+      continue
+    nxt = parts[i + 1] if i + 1 < len(parts) and not isinstance(parts[i + 1], tuple) else ''
+    key = entity_key(p[1])
+    exp = (new_names if p[0] else frozen)[key]
+    alt = old_names[key] if p[0] else new_names[key]
+    if text.startswith(exp + nxt, pos) and (nxt or len(text) == pos + len(exp)):
+      pos += len(exp); consumed += exp
+      continue
+    if alt != exp and text.startswith(alt + nxt, pos) and (nxt or len(text) == pos + len(alt)):
+      m = _SORT_CTX_RE.search(consumed)
+      ctx = (m.group(1) + '-string') if m and consumed.rstrip('-')[-1:] in ('"', "'") else None
+      return ('not-rewritten' if p[0] else 'lookalike-rewritten'), ctx
+    return 'other', None
+  return ('ok' if pos == len(text) else 'other'), None
+
+
 def current_names(stt, obs):
   """entity -> id read back from metadata by ref."""
   out = {}
@@ -686,6 +739,8 @@ def judge(stt, before, after, reply, out, uas, fn_table):
     where = '%s.%s' % (after['tables'][meta['parentId']]['tableId'], meta['colId'])
     gen = stt['formulas'].get(cr)
     label = gen[0] if gen else ('auto:' + re.sub(r'\W+', '_', old)[:20])
+    # (2) token-level diff (template-independent)
+    td = token_diff(old, new, name_pairs, col_pairs)
     # (3) expected text from the generating template
     if gen:
       parts = gen[1]
@@ -700,23 +755,23 @@ def judge(stt, before, after, reply, out, uas, fn_table):
         continue
       if new != exp:
         bad_text.add(cr)
-        if new == old:
-          fail('C16:mention-not-rewritten:' + label,
-               'after %r the formula of %s still reads %r; expected %r' % (uas, where, new, exp),
+        stt['formulas'].pop(cr)      # no longer follows its template: later renames judge it by (1) and (2) only
+        kind, ctx = slot_report(parts, old_names, new_names, frozen, new)
+        if kind in ('not-rewritten', 'lookalike-rewritten') and not td:
+          fail('C16:%s:%s' % ('mention-not-rewritten' if kind == 'not-rewritten' else kind, ctx or label),
+               'after %r the formula of %s reads %r; expected %r' % (uas, where, new, exp),
                {'old': old, 'new': new, 'expected': exp, 'renamed': sorted(name_pairs)})
           continue
-    # (2) token-level diff
-    td = token_diff(old, new, name_pairs, col_pairs)
+        if not td:
+          fail('C16:wrong-rewrite:' + label,
+               'after %r the formula of %s reads %r; expected %r' % (uas, where, new, exp),
+               {'old': old, 'new': new, 'expected': exp, 'renamed': sorted(name_pairs)})
+          continue
     if td:
       bad_text.add(cr)
       fail('C16:text:%s:%s' % (td[0], label),
            'after %r the formula of %s changed from %r to %r: %s %r' % (uas, where, old, new, td[0], td[1]),
            {'old': old, 'new': new, 'renamed': sorted(name_pairs)})
-      continue
-    if gen and new != exp:
-      fail('C16:wrong-rewrite:' + label,
-           'after %r the formula of %s reads %r; expected %r' % (uas, where, new, exp),
-           {'old': old, 'new': new, 'expected': exp, 'renamed': sorted(name_pairs)})
 
   # (1) values
   for tr in sorted(before['rows']):
@@ -741,7 +796,12 @@ def judge(stt, before, after, reply, out, uas, fn_table):
       gen = stt['formulas'].get(cr)
       meta = after['cols'][cr]
       label = gen[0] if gen else ('auto:' + re.sub(r'\W+', '_', before['cols'][cr]['formula'])[:20])
-      fail('C16:value-changed:' + label,
+      sig = 'C16:value-changed:' + label
+      if tab_pairs and all(eqv.is_error_cell(x[2]) and x[2][1:2] == ['AssertionError'] and
+                           not eqv.is_error_cell(x[1]) for x in diffs):
+        # Record objects kept in an Any-typed formula column still carry a relation naming the old table id
+        sig = 'C16:table-rename:stale-record-relation-AssertionError'
+      fail(sig,
            'after %r the values of %s.%s (formula %r, was %r) changed: %r' % (
              uas, after['tables'][tr]['tableId'], meta['colId'], meta['formula'], before['cols'][cr]['formula'],
              diffs[:3]),
@@ -819,32 +879,36 @@ def run_case(case):
 
 
 def run_concrete(case, out):
-  """Known-finding witnesses: exact user actions; the last `n_renames` bundles are the renames. Only the
-  template-independent oracles (values, token diff, texts that mention nothing stay) apply."""
+  """Known-finding witnesses / regression replays: {'concrete': [bundle, ...], 'n_renames': k, 'entities':
+  {ent: tableId | [tableId, colId]}, 'templates': [[tableId, colId, label, template], ...]}. The last k bundles
+  are the renames; everything is judged exactly like a generated case."""
   d = Doc()
-  bundles = case['concrete']
-  n_ren = int(case.get('n_renames', 1))
+  bundles = [(b[1] if (len(b) == 2 and isinstance(b[0], bool)) else b) for b in case['concrete']]
+  n_ren = max(1, int(case.get('n_renames', 1)))
   for uas in bundles[:len(bundles) - n_ren]:
-    uas = uas[1] if (len(uas) == 2 and isinstance(uas[0], bool)) else uas
     r = d.apply(uas)
     if not r.ok:
       return out.fail('C16:setup', 'concrete setup bundle rejected: %r' % (r.error,), uas)
-  stt = {'present': set(), 'names': {}, 'formulas': {}, 'tref': {}, 'cref': {}}
   before = observe(d)
+  tid = {t['tableId']: r for r, t in before['tables'].items()}
+  cid = {(c['parentId'], c['colId']): r for r, c in before['cols'].items()}
+  stt = {'present': set(), 'names': {}, 'formulas': {}, 'tref': {}, 'cref': {}}
+  for ent, v in sorted((case.get('entities') or {}).items(), key=lambda kv: ('.' in kv[0], kv[0])):
+    stt['present'].add(ent)
+    if isinstance(v, list):
+      stt['tref'].setdefault(ent.split('.')[0], tid[v[0]])
+      stt['cref'][ent] = cid[(tid[v[0]], v[1])]
+      stt['names'][ent] = v[1]
+    else:
+      stt['tref'][ent] = tid[v]
+      stt['names'][ent] = v
+  for t, c, label, tmpl in case.get('templates') or []:
+    stt['formulas'][cid[(tid[t], c)]] = (label, parse_template(tmpl), None)
   fn_table = any(t['tableId'] in RESERVED for t in before['tables'].values())
   for uas in bundles[len(bundles) - n_ren:]:
-    uas = uas[1] if (len(uas) == 2 and isinstance(uas[0], bool)) else uas
     r = d.apply(uas)
     after = observe(d)
-    # formulas expected to change can be given as {colRef-less} list of [tableId, colId] -> expected text
     judge(stt, before, after, r, out, uas, fn_table)
-    for (tid, cid), exp in [((e[0], e[1]), e[2]) for e in case.get('expect', [])]:
-      got = [c['formula'] for c in after['cols'].values()
-             if c['colId'] == cid and after['tables'][c['parentId']]['tableId'] == tid]
-      if r.ok and got and got[0] != exp:
-        sig = case.get('expect_signature', 'C16:mention-not-rewritten:concrete')
-        out.fail('C16:table-id-shadows-formula-function' if fn_table else sig,
-                 'formula of %s.%s reads %r, expected %r' % (tid, cid, got[0], exp))
     before = after
   out['concrete'] = d.concrete_history()[1:]
   out['nontrivial'] = True
